@@ -10,7 +10,7 @@ use std::cmp::Ordering;
 pub const CAP: usize = 62;
 
 fn limb_pattern(k: u64, v: u64) -> u64 {
-    match k % 10 {
+    match k % 13 {
         0 => 0,
         1 => 1,
         2 => u64::MAX,
@@ -18,6 +18,11 @@ fn limb_pattern(k: u64, v: u64) -> u64 {
         4 => 1 << 63,
         5 => (1 << 32) + 1,
         6 => (1 << 32) - 1,
+        // exact powers of two and 2^j - 1 for EVERY j (the half-limb boundary 2^32 itself first): shortcuts
+        // keyed on a limb's magnitude are wrong exactly at such a value, for one or for both operands
+        7 => 1 << 32,
+        8 => 1u64 << (v % 64),
+        9 => (1u64 << (v % 64)).wrapping_sub(1),
         _ => v,
     }
 }
